@@ -33,6 +33,28 @@ func vhBuildLong(ctx int, s []byte) vhCtx {
 			vbFixedSym(tail, 'x')
 		}
 		vbFixedSym(tail, 256)
+	case 6:
+		// a byte-aligned window after 41 bytes of non-repeating output: every
+		// (length, distance) pair a two-byte window can hold, so that each of the
+		// match-copy strategies of the assembly (overlapping, 16-byte chunks, ...) moves
+		// distinguishable bytes
+		w.bits(1, 1)
+		w.bits(1, 2)
+		vbFixedSym(w, 200)    // 9 bits
+		vbFixedMatch(w, 3, 1) // 12 bits: the window starts at bit 24
+		for i := 0; i < 37; i++ {
+			vbFixedSym(w, 'a'+i%26)
+		}
+		c.preOut = 41
+		if verifrt.Param("LITCAP") == 1 && len(s) > 0 {
+			// quick tier: the window starts with a length symbol (fixed codes 0000000..0010111,
+			// most significant code bit first)
+			verifrt.Assume(s[0]&3 == 0 && (s[0]&4 == 0 || s[0]&8 == 0))
+		}
+		for i := 0; i < 44; i++ {
+			vbFixedSym(tail, 'x')
+		}
+		vbFixedSym(tail, 256)
 	case 4:
 		// hand-over at the end of the output window: the block has produced
 		// 65536-274-K bytes (just below the point where the assembly loop stops
@@ -105,12 +127,16 @@ func vhBuildLong(ctx int, s []byte) vhCtx {
 // level 0 (Go loop) and level 3 (decode_amd64.go dispatch + decodeHuffmanAsmArchV3
 // executed from the current decode_amd64.s).
 func VerifAsmDiff() {
-	ctx := verifrt.Pick("ctx", 6)
+	ctx := verifrt.Pick("ctx", 7)
 	n := verifrt.Param("N")
 	M := verifrt.Param("M")
 	s := verifrt.Bytes(n)
 	c := vhBuildLong(ctx, s)
 	ro := refOpts{strict: false, maxOut: M + c.preOut + 210, symStart: -1}
+	if ctx == 6 {
+		// the window may produce up to M bytes (the tail produces 44)
+		ro.maxOut = c.preOut + 44 + M
+	}
 	if ctx == 4 {
 		// keep the window to what matters here: short-distance matches crossing the limit
 		ro.distCap = 2
